@@ -244,78 +244,59 @@ theorem replays_close (db : DB) : Replays (close db) db := by
     · exact h
     · exact Replays.trans (Replays.of_eq rfl rfl) h
 
-theorem replays_memputFold (recs : List (Key × Rec)) (db : DB) :
-    Replays (recs.foldl (fun db kr => memput db kr.1 kr.2) db) db :=
-  replays_foldl _ (fun d kr => replays_memput d kr.1 kr.2) recs db
+theorem replays_memputAll (recs : List (Key × Rec)) (db : DB) : Replays (memputAll db recs) db := by
+  unfold memputAll
+  exact replays_foldl _ (fun d kr => replays_memput d kr.1 kr.2) recs db
 
 theorem replays_loaddat (db : DB) : Replays (loaddat db).1 db := by
   unfold loaddat
-  dsimp only
-  have hE : ∀ (i a b : Nat), Replays { emit db "qdb.loadneweridx:removed" (.removeIdx i) with datIdx := a, verSeq := b } db :=
-    fun i a b => Replays.trans (Replays.of_eq rfl rfl) (replays_emit db _ _)
-  cases checkIdxFile db.fs.idx0 with
-  | none =>
-    cases checkIdxFile db.fs.idx1 with
-    | none => exact Replays.refl _
-    | some c1 => exact (replays_memputFold _ _).trans (hE _ _ _)
-  | some c0 =>
-    cases checkIdxFile db.fs.idx1 with
-    | none => exact (replays_memputFold _ _).trans (hE _ _ _)
-    | some c1 =>
-      dsimp only
-      split
-      · exact (replays_memputFold _ _).trans (hE _ _ _)
-      · exact (replays_memputFold _ _).trans (hE _ _ _)
+  split
+  · exact Replays.refl _
+  · exact (replays_memputAll _ _).trans (Replays.trans (Replays.of_eq rfl rfl) (replays_emit db _ _))
+
+theorem replays_applyLog (es : List LogEntry) (db : DB) : Replays (applyLog db es) db := by
+  apply replays_foldl
+  intro d e
+  cases e with
+  | put k r => exact replays_memput d k r
+  | del k => exact replays_memdel d k
 
 theorem replays_loadlog (db : DB) (used : List Nat) : Replays (loadlog db used).1 db := by
   unfold loadlog
   split
   · exact Replays.refl _
-  · dsimp only
-    split
+  · split
     · exact replays_emit _ _ _
-    · refine Replays.trans (Replays.of_eq rfl rfl) ?_
-      apply replays_foldl
-      intro d e
-      cases e with
-      | put k r => exact replays_memput d k r
-      | del k => exact replays_memdel d k
+    · exact Replays.trans (Replays.of_eq rfl rfl) (replays_applyLog _ db)
+
+theorem replays_loadOne (st : DB × List (Key × Rec)) (kr : Key × Rec) : Replays (loadOne st kr).1 st.1 := by
+  unfold loadOne
+  split
+  · exact Replays.refl _
+  · split
+    · exact Replays.refl _
+    · split
+      · exact replays_fail _ _
+      · split
+        · exact replays_fail _ _
+        · exact Replays.refl _
 
 theorem replays_loadAll (db : DB) : Replays (loadAll db) db := by
-  have hf : ∀ (l : List (Key × Rec)) (st : DB × List (Key × Rec)),
-      Replays (l.foldl (fun (st : DB × List (Key × Rec)) kr =>
-        match st.1.failed with
-        | some _ => st
-        | none =>
-          if hasFlag kr.2.flags NO_CACHE then (st.1, st.2 ++ [kr])
-          else match dlookup kr.2.seq st.1.fs.dats with
-            | none => (fail st.1 "exit", st.2)
-            | some f =>
-              if u32 (kr.2.pos + kr.2.len) < kr.2.pos ∨ u32 (kr.2.pos + kr.2.len) > f.length then
-                (fail st.1 "panic", st.2)
-              else (st.1, st.2 ++ [(kr.1, { kr.2 with data := some ((f.drop kr.2.pos).take kr.2.len) })])) st).1 st.1 := by
+  have hf : ∀ (l : List (Key × Rec)) (st : DB × List (Key × Rec)), Replays (l.foldl loadOne st).1 st.1 := by
     intro l
     induction l with
     | nil => intro st; exact Replays.refl _
-    | cons kr t ih =>
-      intro st
-      refine (ih _).trans ?_
-      dsimp only
-      split
-      · exact Replays.refl _
-      · split
-        · exact Replays.refl _
-        · split
-          · exact replays_fail _ _
-          · split
-            · exact replays_fail _ _
-            · exact Replays.refl _
+    | cons kr t ih => intro st; exact (ih _).trans (replays_loadOne st kr)
   unfold loadAll
   have := hf db.index (db, [])
-  dsimp only at this ⊢
+  dsimp only
   split
   · exact this
   · exact Replays.trans (Replays.of_eq rfl rfl) this
+
+theorem replays_openIndex (db : DB) : Replays (openIndex db) db := by
+  unfold openIndex
+  exact (replays_cleanupold _ _).trans ((replays_loadlog _ _).trans (replays_loaddat db))
 
 theorem openDB_replays (fs : FS) (vol load : Bool) (opts : Opts) :
     (openDB fs vol load opts).fs = fs.applyAll ((openDB fs vol load opts).effs.map (·.2)) := by
@@ -323,12 +304,9 @@ theorem openDB_replays (fs : FS) (vol load : Bool) (opts : Opts) :
     unfold openDB
     dsimp only
     refine Replays.trans (Replays.of_eq rfl rfl) ?_
-    have h3 := (replays_cleanupold _ _).trans
-      ((replays_loadlog (loaddat { fs := fs, volatile := vol, opts := opts }).1
-        (loaddat { fs := fs, volatile := vol, opts := opts }).2).trans (replays_loaddat _))
     split
-    · exact (replays_loadAll _).trans h3
-    · exact h3
+    · exact (replays_loadAll _).trans (replays_openIndex _)
+    · exact replays_openIndex _
   obtain ⟨es, h1, h2⟩ := h
   simp only [List.nil_append] at h1
   rw [h1, h2]
